@@ -57,18 +57,18 @@ func (t *transformer) send(w io.Writer) error {
 		}
 	}
 	// write binary
-	size, err := t.f.Seek(0, io.SeekEnd)
+	info, err := t.f.Stat()
 	if err != nil {
 		return err
 	}
+	size := info.Size()
 	hdr := &tar.Header{Name: "exec", Mode: 0755, Size: size}
 	if err := tw.WriteHeader(hdr); err != nil {
 		return err
 	}
-	if _, err := t.f.Seek(0, 0); err != nil {
-		return err
-	}
-	if _, err := io.Copy(tw, t.f); err != nil {
+	// Read by position: the goroutine of an earlier, abandoned reader may
+	// still be running and must not share a file offset with this one.
+	if _, err := io.Copy(tw, io.NewSectionReader(t.f, 0, size)); err != nil {
 		return err
 	}
 	return tw.Close()
